@@ -199,7 +199,7 @@ def run(ctx):
             ctx.case(case, nontrivial=(k >= 2 and n_units >= 2), sample=case, part=part, k=k)
             if any(abs(a - b) > 1e-7 for a, b in zip(sj, want)) or not ctx.vec_close(sj, sp, 200):
                 ctx.mismatch("bruteforce scores under the joint utility are not the weighted sum of the component scores", case, impl=sj, spec=dict(weighted=want, shapley=[str(x) for x in sp]))
-        if ctx.elapsed() > (100 if q else 900):
+        if ctx.elapsed() > (400 if q else 1800):
             break
     return ctx.finish("proof", "C08_kernel_linear, C08_kernel_shift, C08_brute_linear, C08_brute_shift(_null), C08_joint_*: linearity of the modelled kernel and enumeration "
                       "in the utility and the JointUtility model as plain weighted sums (no normalisation); this run compared joint-utility runs of the implementation with "
